@@ -80,7 +80,7 @@ def classify(ctx, tr, recs):
             if e['op'] in ('unpack', 'rt_pack', 'pack'):
                 nb = len(e['s']) if 's' in e else len(e['a']) // 8
                 attrs.update(bigend=bool(e.get('be', False)), nbytes=nb)
-            if e['op'] == 'from_bytes': attrs.update(order=e['order'], nbytes=len(e['s']))
+            if e['op'] in ('from_bytes', 'load'): attrs.update(order=e['order'], nbytes=len(e['s']))
             if cl['c'] == 'must-not-raise': sym = 'raises:' + e['raised']
             elif cl['c'] == 'must-raise': sym = 'no-raise'
             else: sym = 'wrong:' + cl['c']
@@ -127,9 +127,25 @@ def run(ctx):
     for e in ev: ctx.mark(('b', str(e['s']), e['order'], e['size']))
     ctx.exhaustive_subspaces.append('every 1-byte string and 256 class pairs of 2-byte strings under bitorder -1,+1,0,2(,3) and several sizes')
     validate_events(ctx, ev, 'bytes constructors')
+    # load() histories on ONE object: the object denotes exactly the last loaded string, whatever it held before
+    from bitsrec import Obj
+    strings = [b'', b'\x80', b'\x01\x0f', b'\xff\x00\xa5', b'\x0c\x0d\x0a\x0b', b'\x00', b'\x00\x00']
+    def orders_for(x): return [-1, 1] + ([2] if len(x) % 2 == 0 and x else []) + ([0] if x else [])
+    ltr = []
+    for s1 in strings:
+        for s2 in strings:
+            for s3 in (b'', b'\x5a', s1):
+                o = Obj([1, 0, 1]); evs = []
+                for j, x in enumerate((s1, s2, s3)):
+                    od = orders_for(x); evs.append(o.mutate(dict(op='load', s=list(x), order=od[(j + len(s1) + len(s2)) % len(od)])))
+                ltr.append(dict(obj0=[1, 0, 1], ev=evs)); ctx.mark(('load', s1, s2, s3))
+    bad = ctx.validate('trace/Trace_BitVec.tla', ltr, lambda t: len(t['ev']), what='load() histories')
+    for tid, recs in bad.items(): classify(ctx, ltr[tid - 1], recs)
+    ctx.evaluations += sum(len(t['ev']) for t in ltr)
+    ctx.exhaustive_subspaces.append('every three-step load() history over 7 strings (empty, zero bytes, 1..4 bytes) on one object')
     # unpack o pack for every byte count 1..40 (every Q/L/H/B decomposition), both endiannesses
     ev = []
-    for nb in range(1, 41):
+    for nb in range(0, 41):
         for k in range(6 if big else 3):
             s = bytes(rnd.randrange(256) for _ in range(nb)) if k else bytes(range(1, nb + 1))
             ev += unpack_events(s)
@@ -139,7 +155,7 @@ def run(ctx):
             for be in (False, True):
                 ev.append(rec(dict(op='rt_pack', a=a, be=be), lambda be=be: Bits(*unpack(pack(b, '>L' if be else '<L'), bigend=be)), [b], alias_check=False))
             ctx.mark(('u', nb, k))
-    ctx.exhaustive_subspaces.append('unpack and unpack(pack()) for every byte count 1..40, both endiannesses')
+    ctx.exhaustive_subspaces.append('unpack and unpack(pack()) for every byte count 0..40, both endiannesses')
     validate_events(ctx, ev, 'pack/unpack 1..40 bytes')
     # wide samples
     ev = []
